@@ -60,7 +60,30 @@ def main():
         if os.getpid() == main_pid and common._scratch and not os.environ.get('VERIF_KEEP_SCRATCH'):
             shutil.rmtree(common._scratch, ignore_errors=True)
 
+    def descendants(root):
+        kids = {}
+        for d in os.listdir('/proc'):
+            if d.isdigit():
+                try:
+                    with open(f'/proc/{d}/stat') as f:
+                        ppid = int(f.read().rsplit(')', 1)[1].split()[1])
+                    kids.setdefault(ppid, []).append(int(d))
+                except (OSError, ValueError, IndexError):
+                    pass
+        out, todo = [], [root]
+        while todo:
+            for k in kids.get(todo.pop(), []):
+                out.append(k)
+                todo.append(k)
+        return out
+
     def on_term(*_):                # `timeout` / a kill: leave nothing behind
+        if os.getpid() == main_pid:
+            for pid in descendants(main_pid):      # pool workers, TLC / Apalache JVMs
+                try:
+                    os.kill(pid, signal.SIGKILL)
+                except OSError:
+                    pass
         cleanup()
         os._exit(143)
     signal.signal(signal.SIGTERM, on_term)
